@@ -33,6 +33,42 @@ fn scan(channel: &'static str, text: &str, unsafe_taints: &[(String, String)], o
     }
 }
 
+/// everything a log line built from the safe channels could contain
+fn snapshot(obs: &reqs::Observed) -> String {
+    let mut out = String::new();
+    if let Some(sp) = &obs.safe_params {
+        let mut v: Vec<String> = sp.iter().map(|(k, v)| format!("{}={}", k, rec(v))).collect();
+        v.sort();
+        out.push_str(&format!("SafeParams[{}]", v.join(",")));
+    }
+    match &obs.result {
+        Ok(()) => out.push_str(" ok"),
+        Err(e) => {
+            let mut v: Vec<String> = e.safe_params().iter().map(|(k, v)| format!("{}={}", k, rec(v))).collect();
+            v.sort();
+            out.push_str(&format!(" err code={} safe_params[{}] cause_safe={}", reqs::error_code(e), v.join(","), e.cause_safe()));
+            if e.cause_safe() {
+                out.push_str(&format!(" cause={}", e.cause()));
+            }
+        }
+    }
+    out
+}
+
+/// another undecodable text of the same kind
+fn vary(bad: &str, variant: usize) -> String {
+    match variant {
+        1 => bad.replace('Q', "Y").replace('Z', "K").replace('X', "V"),
+        _ => {
+            let mut cut = bad.len() / 2;
+            while !bad.is_char_boundary(cut) {
+                cut -= 1;
+            }
+            format!("{}@", &bad[..cut])
+        }
+    }
+}
+
 fn check(r: &mut Report, rig: &Rig, e: &EndpointD, states: &[St]) {
     r.states += 1;
     let built = reqs::build(e, states);
@@ -70,6 +106,30 @@ fn check(r: &mut Report, rig: &Rig, e: &EndpointD, states: &[St]) {
                 scan("safe-cause-message", &format!("{} / {:?}", err.cause(), err.cause()), &unsafe_taints, &mut leaks);
             }
         }
+        // non-interference: with only the text of undecodable non-safe arguments varied, nothing
+        // observable on a safe channel may change (a safe-flagged cause must be a constant message)
+        let varied: Vec<&str> = e.args.iter().zip(states).filter(|(a, s)| !a.safe && **s == St::Unparsable && !a.bad.is_empty()).map(|(a, _)| a.declared).collect();
+        if !varied.is_empty() {
+            let base = snapshot(&obs);
+            for variant in 1..=2usize {
+                let mut e2 = e.clone();
+                for (a, s) in e2.args.iter_mut().zip(states) {
+                    if !a.safe && *s == St::Unparsable {
+                        a.bad = vary(&a.bad, variant);
+                    }
+                }
+                let built2 = reqs::build(&e2, states);
+                let obs2 = reqs::send(rig, &built2, asynch);
+                r.evaluations += 1;
+                let snap2 = snapshot(&obs2);
+                if snap2 != base {
+                    leaks.push(Leak { channel: "safe-channels-vary-with-non-safe-data", arg: varied.join("+"), text: format!("request {} gives {} but request {} gives {}", built.uri, base, built2.uri, snap2).chars().take(500).collect() });
+                    break;
+                } else {
+                    r.outcome("safe-channels-independent-of-non-safe-text");
+                }
+            }
+        }
         if leaks.is_empty() {
             r.outcome(if obs.result.is_ok() { "handled:no-leak" } else { "rejected:no-leak" });
         }
@@ -79,6 +139,27 @@ fn check(r: &mut Report, rig: &Rig, e: &EndpointD, states: &[St]) {
                 format!("{} {}: data of non-safe argument `{}` reached {}: {}", e.name, built.uri, l.arg, l.channel, l.text),
                 case.clone(),
             );
+        }
+        // "once decoded, whether decoding succeeds or fails": arguments are decoded in
+        // declaration order after auth, so the safe ones ahead of the first undecodable
+        // argument are already recorded when the request is rejected
+        let auth_bad = e.args.iter().zip(states).any(|(a, s)| matches!(a.kind, Kind::AuthHeader | Kind::AuthCookie(_)) && corrupts(a, *s));
+        if !all_valid && !auth_bad && obs.result.is_err() {
+            let first_bad = e.args.iter().zip(states).position(|(a, s)| corrupts(a, *s)).unwrap_or(e.args.len());
+            for (a, s) in e.args.iter().zip(states).take(first_bad) {
+                if !a.safe || *s != St::Valid || matches!(a.kind, Kind::Body) {
+                    continue;
+                }
+                let found = obs.safe_params.as_ref().and_then(|sp| sp.iter().find(|(k, _)| *k == a.declared).map(|(_, v)| rec(v)));
+                match found {
+                    Some(v) if a.taint.is_empty() || !a.valid.contains(&a.taint) || v.contains(&a.taint) => r.outcome("safe-arg-recorded-before-the-failure"),
+                    other => r.violation(
+                        format!("C09|{}|{}|decoded-safe-arg-missing-after-failure|{}", e.name, flavour, a.declared),
+                        format!("{} {}: safe argument {} was decoded before {} failed, but SafeParams holds {:?} for it", e.name, built.uri, a.declared, e.args[first_bad.min(e.args.len() - 1)].declared, other),
+                        case.clone(),
+                    ),
+                }
+            }
         }
         // safe arguments appear under their declared names once everything decoded
         if all_valid && obs.result.is_ok() && !safe_names.is_empty() {
